@@ -145,6 +145,19 @@ fn files(tier: &str) -> Vec<FileSpec> {
         let tests: Vec<TestSpec> = (0..20).map(|k| { let mut t = pool[k % pool.len()].clone(); if k >= pool.len() { t.expected = (t.expected + k) % 5; } t }).collect();
         out.push(FileSpec { tests, h, d, suffix, crlf });
     }
+    // a `:fail-fast` test that FAILS (outdated expectation; `:error` on clean input) in front of and between other tests:
+    // the run of the file stops there, and whatever the update then writes must still hold every test of the file
+    let ff = |name: &'static str, attrs: Vec<&'static str>, input: &'static str, expected: usize| TestSpec { name, attrs, input, expected };
+    for &(h, d, suffix, crlf) in &shapes {
+        for stopper in [ff("stops here", vec![":fail-fast"], "a b", 1), ff("stops here", vec![":fail-fast"], "a b", 2), ff("stops here", vec![":error", ":fail-fast"], "a b", 0)] {
+            let before = ff("before", vec![], "a", 1);
+            let after1 = ff("after one", vec![], "b c", 1);
+            let after2 = ff("after two", vec![":skip"], "(d)", 0);
+            out.push(FileSpec { tests: vec![stopper.clone(), after1.clone()], h, d, suffix, crlf });
+            out.push(FileSpec { tests: vec![before.clone(), stopper.clone(), after1.clone()], h, d, suffix, crlf });
+            out.push(FileSpec { tests: vec![before.clone(), stopper.clone(), after1.clone(), after2.clone()], h, d, suffix, crlf });
+        }
+    }
     // tests that share their name: adjacent pairs and triples, separated by another test, and next to a test that is run
     // once per language (its corrected copies are collapsed into one entry when the file is rewritten)
     let dup = |input: &'static str, attrs: Vec<&'static str>, expected: usize| TestSpec { name: "same name", attrs, input, expected };
